@@ -112,10 +112,10 @@ func (s *session) attempt(of *offer, transport string) {
 			switch s.path {
 			case "receive":
 				out.hub = true
-				out.sb, out.err = blobserver.Receive(ctxbg, s.dst, of.Ref, mkReader(of.Reader, of.Data, of.ErrAt, s.rng))
+				out.sb, out.err = blobserver.Receive(ctxbg, s.dst, of.Ref, readerOf(of, s.rng))
 				out.accepted, out.haveSB = out.err == nil, out.err == nil
-			case "direct":
-				out.sb, out.err = s.b.S.ReceiveBlob(ctxbg, of.Ref, mkReader(of.Reader, of.Data, of.ErrAt, s.rng))
+			case "direct", "direct-src":
+				out.sb, out.err = s.b.S.ReceiveBlob(ctxbg, of.Ref, readerOf(of, s.rng))
 				out.accepted, out.haveSB = out.err == nil, out.err == nil
 			case "put":
 				out.hub = true
@@ -142,7 +142,7 @@ func (s *session) attempt(of *offer, transport string) {
 
 func (s *session) doPut(of *offer, transport string, out *outcome) {
 	url := "/camli/" + of.RefStr
-	body := mkReader(of.Reader, of.Data, of.ErrAt, s.rng)
+	body := readerOf(of, s.rng)
 	switch transport {
 	case "rec-nocl", "rec-cl":
 		req := httptest.NewRequest("PUT", url, plainReader{body})
